@@ -3,7 +3,7 @@
 
    Abstract state
      exists          the file is on disk
-     file            path -> name -> value id | NoVal | Unk
+     file            path -> name -> value id | NoVal
      handle          handle slot -> NoHandle or its access level.  Several CheckpointFile
                      objects (HSlots, 1 or 2) can be open on the SAME file at once, each with
                      its own level (HDF5 shares one file object per process behind them)
@@ -32,12 +32,12 @@
                   getReader(p)(target,n); ReadResult below is what it must see.
 
    CrossKind = FALSE: a name that holds a value is only rewritten with values of the
-   same kind (other shape/length allowed - that is the point).  CrossKind = TRUE also
-   rewrites with another kind; the statement ("writing a name again replaces the old
-   value") is then read leniently: the write may be refused with an error, after which
-   the slot is unspecified (Unk) until the next successful write; what is never
-   admitted is a write that reports success and a later read that returns anything
-   but the value written.                                                          *)
+   same kind (other shape/length allowed - that is the point; keeps the exhaustive
+   configurations small).  CrossKind = TRUE: a name is also rewritten with a value of
+   ANOTHER kind (scalar attribute <-> dataset <-> group-stored list/EigenSystem <-> table).
+   "Writing a name again replaces the old value" is taken strictly: the write must succeed
+   and a fresh reader asking for the NEW kind must get exactly the new value.  The only thing
+   left unspecified is reading a name as another kind than it was last written with.   *)
 EXTENDS Naturals, Sequences, FiniteSets, TLC, Json
 
 CONSTANTS PathSeq,      \* tuple of abstract group paths
@@ -56,19 +56,17 @@ Names == Range(NameSeq)
 Levels == {"READ", "MODIFY", "CREATE"}
 NoHandle == "closed"
 NoVal == "none"        \* never written (since the file was last created/truncated)
-Unk == "unknown"       \* a refused cross-kind write left the slot unspecified
 Empty == [p \in Paths |-> [n \in Names |-> NoVal]]
 
 \* what a fresh READ handle must observe for slot (p,n):
 \*   "none"     -> reading any kind is an error
-\*   "unknown"  -> nothing is asserted
 \*   a value id -> reading with KindOf(id) returns exactly that value
 ReadResult(f, p, n) == f[p][n]
 Obs(f) == [i \in 1..Len(PathSeq) |-> [j \in 1..Len(NameSeq) |-> ReadResult(f, PathSeq[i], NameSeq[j])]]
 
 TypeOK == /\ exists \in BOOLEAN
           /\ handle \in [HSlots -> Levels \cup {NoHandle}]
-          /\ file \in [Paths -> [Names -> Values \cup {NoVal, Unk}]]
+          /\ file \in [Paths -> [Names -> Values \cup {NoVal}]]
 
 AllClosed == [s \in HSlots |-> NoHandle]
 Init == exists = FALSE /\ file = Empty /\ handle = AllClosed /\ h = <<>>
@@ -92,23 +90,16 @@ CloseEffect(s) ==
   /\ handle[s] # NoHandle
   /\ handle' = [handle EXCEPT ![s] = NoHandle]
   /\ UNCHANGED <<exists, file>>
-SameKindOrFree(p, n, v) == IF file[p][n] = NoVal THEN TRUE
-                           ELSE IF file[p][n] = Unk THEN FALSE
-                           ELSE KindOf(file[p][n]) = KindOf(v)
+SameKindOrFree(p, n, v) == IF file[p][n] = NoVal THEN TRUE ELSE KindOf(file[p][n]) = KindOf(v)
 \* getWriter through a slot opened with READ must refuse; nothing changes - independent of the other slots
 WriteRefused(s, p, n, v) ==
   /\ handle[s] = "READ"
   /\ UNCHANGED <<exists, file, handle>>
+\* stored: also over a value of another shape/length and (CrossKind) of another kind
 WriteStored(s, p, n, v) ==
   /\ handle[s] \in {"MODIFY", "CREATE"}
-  /\ SameKindOrFree(p, n, v)
+  /\ CrossKind \/ SameKindOrFree(p, n, v)
   /\ file' = [file EXCEPT ![p][n] = v]
-  /\ UNCHANGED <<exists, handle>>
-\* rewriting with another kind: stored, or refused with the slot left unspecified
-WriteLoose(s, p, n, v, r) ==
-  /\ handle[s] \in {"MODIFY", "CREATE"}
-  /\ CrossKind /\ ~SameKindOrFree(p, n, v)
-  /\ file' = [file EXCEPT ![p][n] = IF r = "ok" THEN v ELSE Unk]
   /\ UNCHANGED <<exists, handle>>
 
 \* ---- the calls, recorded in the history ---------------------------------------
@@ -123,17 +114,14 @@ Close(s) ==
   /\ CloseEffect(s)
   /\ h' = Append(h, [a |-> "close", s |-> s, res |-> "ok", hs |-> handle', obs |-> Obs(file)])
 
+\* kc = the slot held a value of another kind before (kind change)
 Write(s, p, n, v) ==
   \/ /\ WriteRefused(s, p, n, v)
      /\ h' = Append(h, [a |-> "write", s |-> s, p |-> p, n |-> n, v |-> v, res |-> "err",
-                        loose |-> FALSE, ro |-> TRUE, hs |-> handle, obs |-> Obs(file)])
+                        kc |-> FALSE, ro |-> TRUE, hs |-> handle, obs |-> Obs(file)])
   \/ /\ WriteStored(s, p, n, v)
      /\ h' = Append(h, [a |-> "write", s |-> s, p |-> p, n |-> n, v |-> v, res |-> "ok",
-                        loose |-> FALSE, ro |-> FALSE, hs |-> handle, obs |-> Obs(file')])
-  \/ \E r \in {"ok", "err"} :
-        /\ WriteLoose(s, p, n, v, r)
-        /\ h' = Append(h, [a |-> "write", s |-> s, p |-> p, n |-> n, v |-> v, res |-> r,
-                           loose |-> TRUE, ro |-> FALSE, hs |-> handle, obs |-> Obs(file')])
+                        kc |-> ~SameKindOrFree(p, n, v), ro |-> FALSE, hs |-> handle, obs |-> Obs(file')])
 
 Next == /\ Len(h) < Depth
         /\ \/ \E s \in HSlots, l \in Levels : Open(s, l)
@@ -154,8 +142,7 @@ LastStore(p, n) == CHOOSE i \in Stores(p, n) : \A j \in Stores(p, n) : j <= i
 ReadAfterWrite ==
   \A p \in Paths, n \in Names :
      IF Stores(p, n) = {} THEN ReadResult(file, p, n) = NoVal
-     ELSE LET s == h[LastStore(p, n)] IN
-          ReadResult(file, p, n) = IF s.res = "ok" THEN s.v ELSE Unk
+     ELSE ReadResult(file, p, n) = h[LastStore(p, n)].v
 \* a file that does not exist has no content and cannot be open
 MissingFile == ~exists => (file = Empty /\ handle = AllClosed)
 \* a file opened read-only cannot be modified: a write through a slot opened with READ is an error and
